@@ -98,7 +98,7 @@ Proof.
     + unfold flush_fragment. rewrite He, orb_true_r. cbn [fst snd]. auto.
   - destruct (read1 (w_available w) s) as [[b e1] s1].
     destruct e1 as [[| |]|]; cbn [fst snd]; auto.
-    destruct (IH s1 (total + len b) (set_buf w (w_buf w ++ b) (w_dirty w)) e He) as [A B]. split; assumption.
+    destruct (IH s1 (total + len b) (set_buf w (w_buf w ++ b) (w_dirty w || (0 <? len b))) e He) as [A B]. split; assumption.
 Qed.
 
 Definition op_small (o : wop) : Prop := match o with WWriteThrough p => len p <= max_int | _ => True end.
